@@ -2,6 +2,7 @@ SPECIFICATION Spec
 CONSTANTS MaxItems = 2
  MaxSub = 1
  MaxBlocks = 1
+ MaxDepth = 1
  Budget = 1
  IdOffs <- IdOffs3
  Rules = {"assume", "substitution", "sorry", "subproof"}
